@@ -567,12 +567,23 @@ class C16Oracle(BaseOracle):
         if e is None or not is_incremental(ecfg):
             return None
         raw = e.importance_values
-        if not raw:
-            return None          # before the first estimate: empty by design, not probed
         w = self.world
         eff = effective(ecfg, w)
         names = e._sim_names
-        for mode in ("sum", "delta"):
+        if not raw:
+            # a state reachable by a stream of length 0 or 1: there is nothing to normalise yet, but the calls must
+            # still be well-formed (no exception, nothing non-finite); the bound is (1-alpha)^t with no variance yet
+            self.probe("state_before_first_estimate")
+            for mode in ("sum", "delta"):
+                try:
+                    norm = e.get_normalized_importance_values(mode=mode)
+                except Exception as exc:  # noqa: BLE001
+                    return self.v("normalisation-raised", "%s mode raised %s: %s before the first estimate (raw values %r)"
+                                  % (mode, type(exc).__name__, exc, raw), explainer=k, mode=mode, pre_estimate=True)
+                if not isinstance(norm, dict) or any(not math.isfinite(float(x)) for x in norm.values()):
+                    return self.v("normalised-not-finite", "mode=%s raw=%r normalised=%r" % (mode, raw, norm),
+                                  explainer=k, mode=mode, pre_estimate=True)
+        for mode in (("sum", "delta") if raw else ()):
             try:
                 norm = e.get_normalized_importance_values(mode=mode)
             except Exception as exc:  # noqa: BLE001
@@ -665,14 +676,18 @@ class C16Oracle(BaseOracle):
                 if f not in cb:
                     return self.v("confidence-bound-keys", "no bound for %r" % (f,), explainer=k)
                 got = float(cb[f])
-                want = (1.0 - alpha) ** t + math.sqrt(float(var[f]) * alpha / ((2.0 - alpha) * delta))
+                if raw and f not in var:
+                    return self.v("variance-not-tracked", "importance of %r is estimated (%r) but no variance is tracked "
+                                  "for it (%r)" % (f, raw, var), explainer=k)
+                vf = var[f] if f in var else 0.0
+                want = (1.0 - alpha) ** t + math.sqrt(float(vf) * alpha / ((2.0 - alpha) * delta))
                 if not math.isfinite(got) or got < 0.0:
                     return self.v("confidence-bound-not-finite-nonneg", "bound[%r]=%r at delta=%r" % (f, got, delta),
                                   explainer=k)
                 if abs(got - want) > 1e-12 * max(abs(want), 1e-300) + 1e-300:
                     return self.v("confidence-bound-formula",
                                   "bound[%r]=%r at delta=%r, formula gives %r (alpha=%r t=%d var=%r)"
-                                  % (f, got, delta, want, alpha, t, var[f]), explainer=k)
+                                  % (f, got, delta, want, alpha, t, vf), explainer=k)
                 if prev is not None and got > prev[f] * (1 + 1e-12) + 1e-300:
                     return self.v("confidence-bound-not-monotone", "bound[%r] grows from %r to %r as delta grows to %r"
                                   % (f, prev[f], got, delta), explainer=k)
